@@ -324,7 +324,7 @@ class Taint:
                             T[(dest[0], kk)] |= v
                             changed = True
                     # references returned by a call may point into the referents of its reference arguments (iter(), deref(), as_ref() ...)
-                    if len(dest) == 1 and not entered:
+                    if len(dest) == 1 and not entered and lab is None:      # (the result of a source call is what the label names, nothing else)
                         for a in args:
                             if a[0] in ("C", "M") and pts.get(a[1][0]) and not pts[a[1][0]] <= pts[dest[0]] and not self.is_closure_ty(b, a[1][0]):
                                 pts[dest[0]] |= pts[a[1][0]]
